@@ -3,6 +3,8 @@
 Sequential histories over 2-4 collection objects bound to one resource plus retained
 nested-child handles of each; one shared plain model; the resource is probed after
 every step."""
+import copy
+
 from vf import catalog, e1, gen
 from vf import model as _m
 from vf.catalog import MISSING
@@ -46,6 +48,7 @@ def build(spec, i, tag, p_read=0.3, outside=False):
     base_filter = None if with_cr or spec["stratum"] == "collide" else "no_child_cr"
     n = STEPS[spec["tier"]]
     last_writer = None
+    past = []
     while len(steps) < n:
         x = r.random()
         attached = [h for h in ms.handles.values() if h.attached]
@@ -65,6 +68,18 @@ def build(spec, i, tag, p_read=0.3, outside=False):
             if ms.retain(next_id, H.id, sub):
                 steps.append(st)
                 next_id += 1
+            continue
+        if outside:
+            # mirror of Session.raw_history: one entry per distinct content the resource has held
+            cur = ms.truth[0]
+            if not past or not (past[-1] == cur and _m.strict_eq(past[-1], cur)):
+                past.append(copy.deepcopy(cur))
+        if outside and x < 0.18 + 0.05:
+            # byte-identical restore of an earlier state (A, B, A histories)
+            k = r.choice([1, 1, 2, 3])
+            if len(past) > k and past[-1 - k] != MISSING:
+                steps.append({"restore": k, "res": 0, "bump": r.random() < 0.3})
+                ms.outside(0, copy.deepcopy(past[-1 - k]))
             continue
         if outside and x < 0.18 + 0.22:
             from .c02 import rewrite
@@ -91,8 +106,11 @@ def build(spec, i, tag, p_read=0.3, outside=False):
             steps.append(st)
             if _m.is_mutator(st["op"]):
                 last_writer = H.root
-    return {"cls": info.name, "cfg": spec["cfg"], "res": [init], "roots": roots, "steps": steps,
+    case = {"cls": info.name, "cfg": spec["cfg"], "res": [init], "roots": roots, "steps": steps,
             "stratum": spec["stratum"], "oracle": {"results": True, "resource_strict": True}}
+    if outside:
+        case["track_raw"] = True
+    return case
 
 
 def make_case(spec, i):
